@@ -6,6 +6,10 @@
 (* references; and, for the pinned resolver before the repairs, positions never visited).  *)
 EXTENDS Gen_C02, LoaderImpl
 
+(* the resolver model does not depend on the load entry point: one entry stands for all *)
+MCInit == Init /\ case.entry = "file_abs"
+MCSpec == MCInit /\ [][Next]_case
+
 U0 == case.u
 Pos == IF case.pos = "op2" THEN "op" ELSE case.pos
 
